@@ -103,17 +103,14 @@ Qed.
 (** * Trace provider: the model refines the specification *)
 Definition Sim (s : tstate) (sp : tspec) : Prop :=
   map fst (t_regs s) = ts_members sp /\ t_shut s = ts_shut sp /\ t_spans s = ts_spans sp /\
-  Forall (fun e => snd e = false) (t_regs s).
+  Forall (fun e => snd e = false) (t_regs s) /\ (t_shut s = true -> t_regs s = []).
 
 Lemma sim_init members : Sim (tinit members) (tspec_init members).
 Proof.
-  unfold Sim, tinit, tspec_init; cbn. repeat split.
+  unfold Sim, tinit, tspec_init; cbn. repeat split; try discriminate.
   - rewrite map_map. cbn. apply map_id.
   - apply Forall_forall. intros e He. apply in_map_iff in He as [p [<- _]]. reflexivity.
 Qed.
-
-Lemma length_zero_iff {A} (l : list A) : (length l =? 0) = true <-> l = [].
-Proof. destruct l; cbn; split; congruence. Qed.
 
 Lemma Forall_splice {A} (P : A -> Prop) l i : Forall P l -> Forall P (firstn i l ++ skipn (S i) l).
 Proof.
@@ -122,39 +119,29 @@ Proof.
   - rewrite <- (firstn_skipn (S i) l) in H. apply Forall_app in H. tauto.
 Qed.
 
-(** The cancelled-context Shutdown that the property (fnd = false) does not accept from the code. *)
-Definition bad_shutdown (sp : tspec) (o : top) : Prop :=
-  o = TShutdown false /\ ts_shut sp = false /\ ts_members sp <> [].
+Lemma fan_nil_wrote kinds f k ps : fan kinds f k [] ps = (ps, [], [], false).
+Proof. reflexivity. Qed.
 
-Lemma step_sim kinds fnd s sp o :
+Lemma step_sim kinds s sp o :
   Sim s sp ->
-  (fnd = false -> (ts_shut sp = true -> ts_members sp = []) /\ ~ bad_shutdown sp o) ->
-  exists sp', tsstep fnd sp o (snd (tstep kinds s o)) = Some sp' /\ Sim (fst (tstep kinds s o)) sp' /\
-              (fnd = false -> ts_shut sp' = true -> ts_members sp' = []).
+  exists sp', tsstep sp o (snd (tstep kinds s o)) = Some sp' /\ Sim (fst (tstep kinds s o)) sp'.
 Proof.
-  intros (Hm & Hs & Hsp & Hf) Hfnd.
-  assert (Hq : forall w, (ts_shut sp = true -> ts_members sp = [] -> w = false) ->
-               negb (negb (ts_shut sp) || negb w || (fnd && negb (length (ts_members sp) =? 0))) = false).
-  { intros w Hw. destruct (ts_shut sp) eqn:E; cbn; [|reflexivity].
-    destruct w; cbn; [|reflexivity].
-    destruct (ts_members sp) as [|m ms] eqn:Em; [specialize (Hw eq_refl eq_refl); discriminate|].
-    cbn. destruct fnd; [reflexivity|]. destruct (Hfnd eq_refl) as [X _]. specialize (X eq_refl). discriminate. }
-  assert (Hempty : ts_members sp = [] -> t_regs s = []).
-  { intros E. rewrite E in Hm. destruct (t_regs s); [reflexivity | discriminate]. }
+  intros (Hm & Hs & Hsp & Hf & Hd).
+  assert (Hq : forall w, (ts_shut sp = true -> w = false) ->
+               negb (negb (ts_shut sp) || negb w || ts_loose sp) = false).
+  { intros w Hw. destruct (ts_shut sp) eqn:E; cbn; [|reflexivity]. rewrite (Hw eq_refl). reflexivity. }
+  assert (Hempty : ts_shut sp = true -> t_regs s = []) by (intros X; apply Hd; congruence).
   unfold tsstep. destruct o as [p|p|fresh|i|live|live]; cbn [tstep].
   - (* Register *)
     rewrite Hs. destruct (ts_shut sp) eqn:Esh; cbn [snd fst quiet o_wrote o_calls o_err].
-    + rewrite Hq by reflexivity. cbn. eexists; split; [reflexivity|]. split; [repeat split; auto; congruence|].
-      intros Hn Hsh. destruct (Hfnd Hn) as [X _]. apply X. congruence.
-    + rewrite Hq by reflexivity. cbn. eexists; split; [reflexivity|]. split.
-      * repeat split; cbn; auto.
-        -- rewrite map_app, Hm. reflexivity.
-        -- apply Forall_app; split; [exact Hf | repeat constructor].
-      * cbn. discriminate.
+    + rewrite Hq by reflexivity. cbn. eexists; split; [reflexivity|]. repeat split; auto; congruence.
+    + rewrite Hq by reflexivity. cbn. eexists; split; [reflexivity|].
+      repeat split; cbn; auto; try discriminate.
+      * rewrite map_app, Hm. reflexivity.
+      * apply Forall_app; split; [exact Hf | repeat constructor].
   - (* Unregister *)
     rewrite Hs. destruct (ts_shut sp) eqn:Esh; cbn [snd fst quiet o_wrote o_calls o_err].
-    + rewrite Hq by reflexivity. cbn. eexists; split; [reflexivity|]. split; [repeat split; auto; congruence|].
-      intros Hn Hsh. destruct (Hfnd Hn) as [X _]. apply X. congruence.
+    + rewrite Hq by reflexivity. cbn. eexists; split; [reflexivity|]. repeat split; auto; congruence.
     + rewrite last_index_spec, Hm. destruct (last_pos p (ts_members sp)) as [j|] eqn:El.
       * destruct (last_pos_splice _ _ _ El) as [Hspl Hnth].
         assert (Hmem : mem p (ts_members sp) = true).
@@ -164,22 +151,20 @@ Proof.
           destruct (nth_error (t_regs s) j) as [[q f]|] eqn:En; [|discriminate].
           rewrite Forall_forall in Hf. apply (Hf (q, f)). eapply nth_error_In; eauto. }
         rewrite Hfired. destruct (p_shutdown (kinds p) p (t_pst s p)) as [[st xs] w].
-        cbn [snd fst o_wrote o_calls o_err]. rewrite Hq by (intros X; congruence).
+        cbn [snd fst o_wrote o_calls o_err]. rewrite Hq by discriminate.
         rewrite Hmem. cbn. rewrite Nat.eqb_refl. cbn.
-        eexists; split; [reflexivity|]. split; [|cbn; discriminate].
+        eexists; split; [reflexivity|].
         change (match t_regs s with [] => [] | _ :: l => skipn j l end) with (skipn (S j) (t_regs s)).
-        repeat split; cbn [t_regs t_shut t_spans ts_members ts_shut ts_spans]; auto.
+        repeat split; cbn [t_regs t_shut t_spans ts_members ts_shut ts_spans with_members]; auto; try discriminate.
         -- rewrite map_fst_splice, Hm. exact Hspl.
         -- now apply Forall_splice.
       * cbn [snd fst quiet o_wrote o_calls o_err]. rewrite Hq by reflexivity.
         apply last_pos_none in El. rewrite El. cbn.
-        eexists; split; [reflexivity|]. split; [repeat split; auto; congruence|].
-        intros Hn Hsh. congruence.
+        eexists; split; [reflexivity|]. repeat split; auto; congruence.
   - (* Start *)
     rewrite Hs. destruct (ts_shut sp && fresh) eqn:Eb; cbn [snd fst quiet o_wrote o_calls o_err o_flag].
     + rewrite Hq by reflexivity. cbn.
-      eexists; split; [reflexivity|]. split; [repeat split; cbn; auto; congruence|].
-      cbn. intros Hn Hsh. destruct (Hfnd Hn) as [X _]. apply X. congruence.
+      eexists; split; [reflexivity|]. repeat split; cbn; auto; congruence.
     + pose proof (fan_calls kinds p_on_start KOnStart (t_regs s) (t_pst s)) as Hc.
       assert (Hw : forall regs ps, let '(_, _, xs, w) := fan kinds p_on_start KOnStart regs ps in w = false).
       { induction regs as [|[q b] r IH]; intros ps; cbn; [reflexivity|].
@@ -189,154 +174,92 @@ Proof.
       destruct (fan kinds p_on_start KOnStart (t_regs s) (t_pst s)) as [[[ps cs] xs] w].
       cbn [snd fst o_wrote o_calls o_err o_flag]. subst w. rewrite Hq by reflexivity. cbn.
       rewrite Hc, Hm, calls_eqb_refl. cbn.
-      eexists; split; [reflexivity|]. split; [repeat split; cbn; auto; congruence|].
-      cbn. intros Hn Hsh. destruct (Hfnd Hn) as [X _]. apply X. congruence.
+      eexists; split; [reflexivity|]. repeat split; cbn; auto; congruence.
   - (* End *)
     rewrite <- Hsp. destruct (nth_error (t_spans s) i) as [[[|] [|]]|] eqn:En;
       try (cbn [snd fst quiet o_wrote o_calls o_err]; rewrite Hq by reflexivity; cbn;
-           eexists; split; [reflexivity|]; split; [repeat split; auto; congruence|];
-           intros Hn Hsh; destruct (Hfnd Hn) as [X _]; now apply X).
+           eexists; split; [reflexivity|]; repeat split; auto; congruence).
     pose proof (fan_calls kinds p_on_end KOnEnd (t_regs s) (t_pst s)) as Hc.
     destruct (fan kinds p_on_end KOnEnd (t_regs s) (t_pst s)) as [[[ps cs] xs] w] eqn:Ef.
     cbn [snd fst o_wrote o_calls o_err].
     rewrite Hq.
     + cbn. rewrite Hc, Hm, calls_eqb_refl.
-      eexists; split; [reflexivity|]. split; [repeat split; cbn; auto; congruence|].
-      cbn. intros Hn Hsh. destruct (Hfnd Hn) as [X _]. now apply X.
-    + intros _ E. rewrite (Hempty E) in Ef. cbn in Ef. congruence.
+      eexists; split; [reflexivity|]. repeat split; cbn; auto; congruence.
+    + intros E. rewrite (Hempty E) in Ef. cbn in Ef. congruence.
   - (* ForceFlush *)
     destruct (t_regs s) as [|e r] eqn:Er.
     + cbn [snd fst quiet o_wrote o_calls o_err]. rewrite Hq by reflexivity.
       assert (Em : ts_members sp = []) by (rewrite <- Hm; reflexivity).
       rewrite Em. cbn. rewrite orb_true_r. cbn.
-      eexists; split; [reflexivity|]. split; [repeat split; auto; try congruence; rewrite Er; auto|].
-      intros Hn Hsh. exact Em.
+      eexists; split; [reflexivity|]. repeat split; auto; try congruence; rewrite Er; auto.
     + rewrite <- Er in *. destruct live.
       * pose proof (fan_calls kinds p_flush KFlush (t_regs s) (t_pst s)) as Hc.
         destruct (fan kinds p_flush KFlush (t_regs s) (t_pst s)) as [[[ps cs] xs] w] eqn:Ef.
         cbn [snd fst o_wrote o_calls o_err]. rewrite Hq.
         -- cbn. rewrite Hc, Hm, calls_eqb_refl. cbn.
-           eexists; split; [reflexivity|]. split; [repeat split; cbn; auto; congruence|].
-           cbn. intros Hn Hsh. destruct (Hfnd Hn) as [X _]. now apply X.
-        -- intros _ E. rewrite (Hempty E) in Er. discriminate.
+           eexists; split; [reflexivity|]. repeat split; cbn; auto; congruence.
+        -- intros E. rewrite (Hempty E) in Er. discriminate.
       * cbn [snd fst quiet o_wrote o_calls o_err]. rewrite Hq by reflexivity.
         assert (Hl : (length (ts_members sp) =? 0) = false).
         { rewrite <- Hm, Er. reflexivity. }
         rewrite Hl. cbn.
-        eexists; split; [reflexivity|]. split; [repeat split; auto; congruence|].
-        intros Hn Hsh. destruct (Hfnd Hn) as [X _]. now apply X.
+        eexists; split; [reflexivity|]. repeat split; auto; congruence.
   - (* Shutdown *)
     rewrite Hs. destruct (ts_shut sp) eqn:Esh.
     + cbn [snd fst quiet o_wrote o_calls o_err]. rewrite Hq by reflexivity. cbn.
-      eexists; split; [reflexivity|]. split; [repeat split; auto; congruence|].
-      intros Hn Hsh. destruct (Hfnd Hn) as [X _]. apply X. congruence.
-    + destruct (t_regs s) as [|e r] eqn:Er.
-      * cbn [snd fst quiet o_wrote o_calls o_err]. rewrite Hq by reflexivity.
-        assert (Em : ts_members sp = []) by (rewrite <- Hm; reflexivity).
-        rewrite Em. cbn. rewrite orb_true_r. cbn.
-        eexists; split; [reflexivity|]. split; [repeat split; cbn; auto; congruence|]. reflexivity.
-      * rewrite <- Er in *.
-        assert (Hl : (length (ts_members sp) =? 0) = false) by (rewrite <- Hm, Er; reflexivity).
-        destruct live.
-        -- pose proof (shutdown_all_calls kinds (t_regs s) (t_pst s) Hf) as Hc.
-           destruct (shutdown_all kinds (t_regs s) (t_pst s)) as [[[ps cs] xs] w].
-           cbn [snd fst o_wrote o_calls o_err]. rewrite Hq by (intros X; congruence).
-           cbn. rewrite Hc, Hm, calls_eqb_refl. cbn.
-           eexists; split; [reflexivity|]. split; [repeat split; cbn; auto; congruence|]. reflexivity.
-        -- cbn [snd fst quiet o_wrote o_calls o_err]. rewrite Hq by reflexivity.
-           rewrite Hl. cbn. destruct fnd.
-           ++ eexists; split; [reflexivity|]. split; [repeat split; cbn; auto; congruence|]. discriminate.
-           ++ exfalso. destruct (Hfnd eq_refl) as [_ X]. apply X. repeat split; [congruence|].
-              intros E. rewrite E in Hl. discriminate.
+      eexists; split; [reflexivity|]. repeat split; auto; congruence.
+    + pose proof (shutdown_all_calls kinds (t_regs s) (t_pst s) Hf) as Hc.
+      destruct (shutdown_all kinds (t_regs s) (t_pst s)) as [[[ps cs] xs] w].
+      cbn [snd fst o_wrote o_calls o_err]. rewrite Hq by discriminate.
+      rewrite Hc, Hm, calls_eqb_refl.
+      assert (Hin : err_in ENil (if live || (length (ts_members sp) =? 0) then [ENil] else [ENil; ECtx]) = true)
+        by (destruct (live || (length (ts_members sp) =? 0)); reflexivity).
+      rewrite Hin. cbn.
+      eexists; split; [reflexivity|]. repeat split; cbn; auto.
 Qed.
 
-Definition next_members (m : list nat) (o : top) : list nat :=
-  match o with TReg p => m ++ [p] | TUnreg p => remove_last p m | _ => m end.
-
-Lemma tsstep_members fnd sp o ob sp' : tsstep fnd sp o ob = Some sp' -> ts_shut sp' = false ->
-  ts_shut sp = false /\ ts_members sp' = next_members (ts_members sp) o.
-Proof.
-  unfold tsstep. intros H Hs.
-  repeat match type of H with
-  | (if ?b then _ else _) = Some _ => let E := fresh "E" in destruct b eqn:E; try discriminate
-  | match ?x with _ => _ end = Some _ => let E := fresh "E" in destruct x eqn:E; try discriminate
-  end; inversion H; subst; clear H; cbn in *; try discriminate; try (split; [assumption || reflexivity | reflexivity]).
-  all: try (split; [congruence|]; try reflexivity).
-  all: try (apply orb_true_iff in E0 as [X|X]; [congruence|]; apply negb_true_iff in X;
-            symmetry; now apply remove_last_absent).
-  - destruct (ts_shut sp) eqn:X; [rewrite X in Hs; discriminate | auto].
-  - rewrite Hs in E1. cbn in E1. apply negb_true_iff in E1. symmetry. now apply remove_last_absent.
-  - split; [|reflexivity]. apply orb_false_iff in E1. tauto.
-Qed.
-
-Lemma trun_known kinds ops : forall s sp, Sim s sp -> tspec_run true sp (trun kinds s ops) = true.
+Lemma trun_ok kinds ops : forall s sp, Sim s sp -> tspec_run sp (trun kinds s ops) = true.
 Proof.
   induction ops as [|o r IH]; intros s sp HS; [reflexivity|].
   cbn [trun]. destruct (tstep kinds s o) as [s' ob] eqn:Et. cbn [tspec_run].
-  destruct (step_sim kinds true s sp o HS) as (sp' & H1 & H2 & _); [discriminate|].
+  destruct (step_sim kinds s sp o HS) as (sp' & H1 & H2).
   rewrite Et in H1, H2. cbn in H1, H2. rewrite H1. now apply IH.
 Qed.
 
-(** The model (the code as it is) is accepted by the specification read with finding F-C15-3. *)
-Theorem tspec_known_model kinds members ops :
-  tspec_known members (trun kinds (tinit members) ops) = true.
-Proof. apply trun_known, sim_init. Qed.
+(** The model satisfies the whole trace specification, for all operation sequences. *)
+Theorem tspec_ok_model kinds members ops : tspec_ok members (trun kinds (tinit members) ops) = true.
+Proof. apply trun_ok, sim_init. Qed.
 
-Lemma trun_ok kinds ops : forall s sp, Sim s sp ->
-  (ts_shut sp = true -> ts_members sp = []) ->
-  (ts_shut sp = false -> t_members_after (ts_members sp) ops = false) ->
-  tspec_run false sp (trun kinds s ops) = true.
-Proof.
-  induction ops as [|o r IH]; intros s sp HS Hsh Htr; [reflexivity|].
-  cbn [trun]. destruct (tstep kinds s o) as [s' ob] eqn:Et. cbn [tspec_run].
-  destruct (step_sim kinds false s sp o HS) as (sp' & H1 & H2 & H3).
-  { intros _. split; [exact Hsh|]. intros (Ho & Hns & Hne). subst o. specialize (Htr Hns). cbn in Htr.
-    destruct (ts_members sp); [congruence | discriminate]. }
-  rewrite Et in H1, H2. cbn in H1, H2. rewrite H1. apply IH; auto.
-  intros Hs'. destruct (tsstep_members _ _ _ _ _ H1 Hs') as [Hs0 Hm]. specialize (Htr Hs0).
-  rewrite Hm. destruct o; cbn in *; auto.
-  (* a Shutdown leaves the provider shut *)
-  exfalso. unfold tsstep in H1.
-  repeat match type of H1 with
-  | (if ?b then _ else _) = Some _ => let E := fresh "E" in destruct b eqn:E; try discriminate
-  end; inversion H1; subst; cbn in *; congruence.
-Qed.
-
-(** Without the trigger of F-C15-3 the model satisfies the property itself. *)
-Theorem tspec_ok_model kinds members ops : t_trigger members ops = false ->
-  tspec_ok members (trun kinds (tinit members) ops) = true.
-Proof.
-  intros H. apply trun_ok; [apply sim_init | discriminate | intros _; exact H].
-Qed.
-
-(** With the trigger it does not: a processor registered when Shutdown(cancelled ctx) is called is
-    never shut down and keeps receiving spans. *)
-Lemma tspec_ok_refuted : exists kinds members ops,
-  tspec_ok members (trun kinds (tinit members) ops) = false.
+(** The code before 98804a6 did not: a processor registered when Shutdown(cancelled ctx) was called
+    was never shut down and kept receiving spans. *)
+Lemma tspec_ok_old_refuted : exists kinds members ops,
+  tspec_ok members (trun_old kinds (tinit members) ops) = false.
 Proof.
   exists (fun _ => PCount), [0], [TStart false; TShutdown false; TEnd 0; TShutdown true]. reflexivity.
 Qed.
 
-(** * Membership, readable form: the list the provider holds after any operation sequence is the
-    abstract "registered and not unregistered" list, and an ended span goes to exactly that list. *)
+(** * Membership, readable form *)
+Definition next_members (m : list nat) (o : top) : list nat :=
+  match o with TReg p => m ++ [p] | TUnreg p => remove_last p m | _ => m end.
+
 Lemma tstep_regs kinds s o :
-  Forall (fun e => snd e = false) (t_regs s) ->
+  Forall (fun e => snd e = false) (t_regs s) -> (t_shut s = true -> t_regs s = []) ->
   let s' := fst (tstep kinds s o) in
-  Forall (fun e => snd e = false) (t_regs s') /\
-  (t_shut s = true -> t_shut s' = true /\ t_regs s' = t_regs s) /\
+  Forall (fun e => snd e = false) (t_regs s') /\ (t_shut s' = true -> t_regs s' = []) /\
+  (t_shut s = true -> t_shut s' = true) /\
   (t_shut s = false ->
      match o with
-     | TShutdown live => t_shut s' = true /\ (live = true \/ t_regs s = [] -> t_regs s' = [])
+     | TShutdown _ => t_shut s' = true
      | _ => t_shut s' = false /\ map fst (t_regs s') = next_members (map fst (t_regs s)) o
      end).
 Proof.
-  intros Hf. destruct (step_sim kinds true s
-    {| ts_members := map fst (t_regs s); ts_shut := t_shut s; ts_spans := t_spans s |} o) as (sp' & H1 & H2 & _).
-  { repeat split; auto. } { discriminate. }
-  destruct H2 as (_ & _ & _ & Hf'). cbn zeta. split; [exact Hf'|]. clear H1 Hf' sp'.
+  intros Hf Hd.
+  destruct (step_sim kinds s {| ts_members := map fst (t_regs s); ts_shut := t_shut s; ts_spans := t_spans s; ts_loose := false |} o)
+    as (sp' & H1 & H2).
+  { repeat split; auto. }
+  destruct H2 as (_ & _ & _ & Hf' & Hd'). cbn zeta. split; [exact Hf'|]. split; [exact Hd'|]. clear H1 Hf' Hd' sp'.
   destruct (t_shut s) eqn:Esh; (split; intros Hsh; [|discriminate Hsh] || (split; intros Hsh; [discriminate Hsh|])).
-  - (* already shut down *)
-    destruct o as [p|p|fresh|i|live|live]; cbn [tstep]; rewrite ?Esh; cbn [andb fst quiet]; auto.
+  - destruct o as [p|p|fresh|i|live|live]; cbn [tstep]; rewrite ?Esh; cbn [andb fst quiet]; auto.
     + destruct fresh; cbn; auto.
       destruct (fan kinds p_on_start KOnStart (t_regs s) (t_pst s)) as [[[? ?] ?] ?]. cbn. auto.
     + destruct (nth_error (t_spans s) i) as [[[|] [|]]|]; cbn; auto.
@@ -357,55 +280,40 @@ Proof.
     + destruct (t_regs s) as [|e r] eqn:E; [cbn; rewrite ?E; auto|]. rewrite <- E.
       destruct live; cbn [fst quiet]; auto.
       destruct (fan kinds p_flush KFlush (t_regs s) (t_pst s)) as [[[? ?] ?] ?]. cbn. auto.
-    + destruct (t_regs s) as [|e r] eqn:E; cbn [fst quiet]; [cbn; auto|]. rewrite <- E. destruct live.
-      * destruct (shutdown_all kinds (t_regs s) (t_pst s)) as [[[? ?] ?] ?]. cbn. auto.
-      * cbn. split; [reflexivity|]. rewrite E. intros [X|X]; discriminate.
+    + destruct (shutdown_all kinds (t_regs s) (t_pst s)) as [[[? ?] ?] ?]. cbn. auto.
 Qed.
 
 Lemma regs_after kinds ops : forall s,
-  Forall (fun e => snd e = false) (t_regs s) ->
-  (t_shut s = true -> t_regs s = []) ->
-  (t_shut s = false -> t_members_after (map fst (t_regs s)) ops = false) ->
+  Forall (fun e => snd e = false) (t_regs s) -> (t_shut s = true -> t_regs s = []) ->
   let s' := tstate_after kinds s ops in
   map fst (t_regs s') = members_after (map fst (t_regs s)) (t_shut s) ops /\
   Forall (fun e => snd e = false) (t_regs s') /\ (t_shut s' = true -> t_regs s' = []).
 Proof.
-  induction ops as [|o r IH]; intros s Hf Hsh Htr; cbn zeta; [cbn; auto|].
-  cbn [tstate_after]. destruct (tstep_regs kinds s o Hf) as (Hf' & H1 & H2).
+  induction ops as [|o r IH]; intros s Hf Hd; cbn zeta; [cbn; auto|].
+  cbn [tstate_after]. destruct (tstep_regs kinds s o Hf Hd) as (Hf' & Hd' & H1 & H2).
   set (s1 := fst (tstep kinds s o)) in *.
+  destruct (IH s1 Hf' Hd') as (A & B & C). split; [|auto]. rewrite A.
   destruct (t_shut s) eqn:Esh.
-  - destruct (H1 eq_refl) as [Hs1 Hr1]. specialize (Hsh eq_refl).
-    destruct (IH s1 Hf') as (A & B & C); [intros _; congruence | intros X; congruence|].
-    split; [|auto]. rewrite A, Hr1, Hs1, Hsh. destruct o; reflexivity.
-  - specialize (H2 eq_refl). specialize (Htr eq_refl).
-    destruct o as [p|p|fresh|i|live|live].
-    1-5: destruct H2 as [Hs1 Hm1]; cbn [next_members] in Hm1;
-      destruct (IH s1 Hf') as (A & B & C); [intros X; congruence | intros _; rewrite Hm1; exact Htr |];
-      split; [|auto]; rewrite A, Hm1, Hs1; reflexivity.
-    destruct H2 as [Hs1 He1]. cbn in Htr.
-    assert (Hr1 : t_regs s1 = []).
-    { apply He1. destruct live; [now left|right]. cbn in Htr.
-      destruct (t_regs s); [reflexivity | discriminate]. }
-    destruct (IH s1 Hf') as (A & B & C); [auto | intros X; congruence |].
-    split; [|auto]. rewrite A, Hr1, Hs1. reflexivity.
+  - specialize (H1 eq_refl). rewrite H1, (Hd' H1), (Hd eq_refl). destruct o; reflexivity.
+  - specialize (H2 eq_refl). destruct o as [p|p|fresh|i|live|live];
+      try (destruct H2 as [-> ->]; reflexivity).
+    rewrite H2, (Hd' H2). reflexivity.
 Qed.
 
 (** c15_membership: an ended (recording, not yet ended) span is handed to exactly the processors
     registered and not unregistered at that moment, in registration order. *)
 Theorem membership kinds members ops i :
-  t_trigger members ops = false ->
   let s := tstate_after kinds (tinit members) ops in
   map fst (t_regs s) = members_after members false ops /\
   (nth_error (t_spans s) i = Some (true, false) ->
    o_calls (snd (tstep kinds s (TEnd i))) = to_all KOnEnd (members_after members false ops)).
 Proof.
-  intros Htr. cbn zeta.
+  cbn zeta.
   assert (Hinit : map fst (t_regs (tinit members)) = members).
   { cbn. rewrite map_map. apply map_id. }
   destruct (regs_after kinds ops (tinit members)) as (A & _ & _).
   - apply Forall_forall. intros e He. apply in_map_iff in He as [p [<- _]]. reflexivity.
   - discriminate.
-  - intros _. rewrite Hinit. exact Htr.
   - rewrite Hinit in A. cbn [t_shut tinit] in A. split; [exact A|].
     intros Hn. cbn [tstep]. rewrite Hn.
     pose proof (fan_calls kinds p_on_end KOnEnd (t_regs (tstate_after kinds (tinit members) ops))
@@ -413,8 +321,7 @@ Proof.
     destruct (fan kinds p_on_end KOnEnd _ _) as [[[ps cs] xs] w]. cbn. now rewrite Hc, A.
 Qed.
 
-(** c15_unregister_unknown_noop: unregistering a processor that is not registered changes nothing
-    (in any state whatsoever) and calls nobody. *)
+(** c15_unregister_unknown_noop *)
 Theorem unregister_unknown_noop kinds s p :
   mem p (map fst (t_regs s)) = false -> tstep kinds s (TUnreg p) = (s, quiet ENil false).
 Proof.
@@ -422,9 +329,7 @@ Proof.
   rewrite last_index_spec. apply last_pos_none in H. now rewrite H.
 Qed.
 
-(** c15_after_shutdown (trace): once a Shutdown has emptied the list, every later operation is a
-    harmless no-op: no processor or exporter is called, nothing is written, the error is nil, a
-    tracer obtained afterwards does not record, and the provider stays that way. *)
+(** c15_after_shutdown (trace) *)
 Definition t_dead (s : tstate) : Prop := t_shut s = true /\ t_regs s = [].
 
 Lemma dead_step kinds s o : t_dead s ->
@@ -451,15 +356,13 @@ Proof.
   destruct H as (Hd' & H). constructor; [exact H | now apply IH].
 Qed.
 
-(** A Shutdown whose context is live (or issued when nothing is registered) makes the provider dead. *)
+(** Every Shutdown, whatever its context, makes the provider dead. *)
 Lemma shutdown_makes_dead kinds s live :
-  live = true \/ t_regs s = [] -> t_shut s = false \/ t_dead s -> t_dead (fst (tstep kinds s (TShutdown live))).
+  t_shut s = false \/ t_dead s -> t_dead (fst (tstep kinds s (TShutdown live))).
 Proof.
-  intros Hl Hs. cbn [tstep]. destruct (t_shut s) eqn:E.
+  intros Hs. cbn [tstep]. destruct (t_shut s) eqn:E.
   - destruct Hs as [X|X]; [discriminate | exact X].
-  - destruct (t_regs s) as [|e r] eqn:Er; [split; reflexivity|]. rewrite <- Er.
-    destruct live; [|destruct Hl as [X|X]; [discriminate | congruence]].
-    destruct (shutdown_all kinds (t_regs s) (t_pst s)) as [[[? ?] ?] ?]. split; reflexivity.
+  - destruct (shutdown_all kinds (t_regs s) (t_pst s)) as [[[? ?] ?] ?]. split; reflexivity.
 Qed.
 
 Lemma NoDup_snoc {A} (l : list A) x : NoDup l -> ~ In x l -> NoDup (l ++ [x]).
@@ -510,8 +413,6 @@ Section Conc.
   Variable members : list nat.
   Notation CR := (Reach (cstep prog) (cinit members)).
 
-  Definition all_live : Prop := forall t, prog t <> Some (CShutdown false).
-
   Definition CInv (s : cstate) : Prop :=
     NoDup (map fst (c_regs s)) /\
     (forall r, In r (map fst (c_regs s)) -> r < c_next s /\ c_count s r = 0) /\
@@ -519,7 +420,7 @@ Section Conc.
     (forall r, c_next s <= r -> c_count s r = 0) /\
     (forall t, c_pcs s t = CIn <-> c_mu s = Some t) /\
     (forall t live, prog t = Some (CShutdown live) -> c_pcs s t = CDone -> c_shut s = true) /\
-    (all_live -> c_shut s = true -> c_regs s = []).
+    (c_shut s = true -> c_regs s = []).
 
   Lemma cinit_fst : map fst (c_regs (cinit members)) = seq 0 (length members).
   Proof. cbn. apply combine_fst_seq. Qed.
@@ -555,25 +456,18 @@ Section Conc.
       split; [apply Hmu'|]. split; [reflexivity | exact Hlive]. }
     destruct o as [live|p|p].
     - (* Shutdown *)
-      destruct (c_regs s) as [|e r] eqn:Er.
-      + cbn [c_regs c_shut c_next c_count c_pcs c_mu map].
-        split; [constructor|]. split; [intros x []|]. split; [intros x Hlt _; apply Hout; auto|].
-        split; [exact Hhi|]. split; [apply Hmu'|]. split; reflexivity.
-      + rewrite <- Er in *. destruct live; cbn [c_regs c_shut c_next c_count c_pcs c_mu map].
-        * split; [constructor|]. split; [intros x []|]. split.
-          { intros r0 Hlt _. rewrite bump_all_spec by exact Hnd.
-            destruct (in_dec Nat.eq_dec r0 (map fst (c_regs s))) as [Hi|Hi].
-            - destruct (Hin _ Hi) as [_ ->]. reflexivity.
-            - rewrite (Hout _ Hlt Hi). lia. }
-          split.
-          { intros r0 Hge. rewrite bump_all_spec by exact Hnd.
-            destruct (in_dec Nat.eq_dec r0 (map fst (c_regs s))) as [Hi|Hi].
-            - destruct (Hin _ Hi) as [X _]. lia.
-            - rewrite (Hhi _ Hge). lia. }
-          split; [apply Hmu'|]. split; reflexivity.
-        * split; [exact Hnd|]. split; [exact Hin|]. split; [exact Hout|]. split; [exact Hhi|].
-          split; [apply Hmu'|]. split; [reflexivity|].
-          intros Hal _. exfalso. apply (Hal t). exact Hp.
+      cbn [c_regs c_shut c_next c_count c_pcs c_mu map].
+      split; [constructor|]. split; [intros x []|]. split.
+      { intros r0 Hlt _. rewrite bump_all_spec by exact Hnd.
+        destruct (in_dec Nat.eq_dec r0 (map fst (c_regs s))) as [Hi|Hi].
+        - destruct (Hin _ Hi) as [_ ->]. reflexivity.
+        - rewrite (Hout _ Hlt Hi). lia. }
+      split.
+      { intros r0 Hge. rewrite bump_all_spec by exact Hnd.
+        destruct (in_dec Nat.eq_dec r0 (map fst (c_regs s))) as [Hi|Hi].
+        - destruct (Hin _ Hi) as [X _]. lia.
+        - rewrite (Hhi _ Hge). lia. }
+      split; [apply Hmu'|]. split; reflexivity.
     - (* Unregister *)
       rewrite c_last_from_spec. destruct (last_pos p (map snd (c_regs s))) as [j|] eqn:El.
       + cbn [Nat.add]. destruct (last_pos_splice _ _ _ El) as [_ Hnth].
@@ -656,7 +550,7 @@ Section Conc.
     (forall r, c_count s r <= 1) /\
     (forall r, r < c_next s ->
        (In r (map fst (c_regs s)) /\ c_count s r = 0) \/ (~ In r (map fst (c_regs s)) /\ c_count s r = 1)) /\
-    (all_live -> forall t, prog t = Some (CShutdown true) -> c_pcs s t = CDone ->
+    (forall t live, prog t = Some (CShutdown live) -> c_pcs s t = CDone ->
        c_regs s = [] /\ forall r, r < c_next s -> c_count s r = 1).
   Proof.
     intros Hr. destruct (cinv s Hr) as (Hnd & Hin & Hout & Hhi & Hmu & Hsd & Hlive).
@@ -667,8 +561,8 @@ Section Conc.
     split; [|split; [exact H2|]].
     - intros r. destruct (le_lt_dec (c_next s) r) as [Hge|Hlt]; [rewrite (Hhi _ Hge); lia|].
       destruct (H2 r Hlt) as [[_ ->]|[_ ->]]; lia.
-    - intros Hal t Ht Hd. assert (Hsh : c_shut s = true) by (eapply Hsd; eauto).
-      pose proof (Hlive Hal Hsh) as He. split; [exact He|].
+    - intros t live Ht Hd. assert (Hsh : c_shut s = true) by (eapply Hsd; eauto).
+      pose proof (Hlive Hsh) as He. split; [exact He|].
       intros r Hlt. apply Hout; [exact Hlt|]. rewrite He. intros [].
   Qed.
 
@@ -704,27 +598,26 @@ Section Conc.
   Qed.
 End Conc.
 
-(** With a cancelled first Shutdown the exactly-once reading fails: the provider is marked shut
-    down, the registration stays in the list and no later schedule ever shuts it down. *)
-Lemma shutdown_once_refuted :
+(** The code before 98804a6: a Shutdown caller with a cancelled context returned with the registration
+    still in the list and never shut down by any continuation. *)
+Lemma shutdown_once_old_refuted :
   exists prog members sch s,
-    run (cstep prog) (cinit members) sch = Some s /\ c_pcs s 0 = CDone /\ prog 0 = Some (CShutdown false) /\
+    run (cstep_old prog) (cinit members) sch = Some s /\ c_pcs s 0 = CDone /\ prog 0 = Some (CShutdown false) /\
     c_count s 0 = 0 /\
-    forall sch' s', run (cstep prog) s sch' = Some s' -> c_count s' 0 = 0.
+    forall sch' s', run (cstep_old prog) s sch' = Some s' -> c_count s' 0 = 0.
 Proof.
   exists (fun t => match t with 0 => Some (CShutdown false) | _ => Some (CShutdown true) end), [7], [0; 0; 0].
   eexists. split; [reflexivity|]. cbn. repeat split; auto.
-  (* once isShutdown is set, no step changes the counters *)
   assert (Hstable : forall sch' s0 s', c_shut s0 = true -> c_count s0 0 = 0 ->
-            run (cstep (fun t => match t with 0 => Some (CShutdown false) | _ => Some (CShutdown true) end)) s0 sch' = Some s' ->
+            run (cstep_old (fun t => match t with 0 => Some (CShutdown false) | _ => Some (CShutdown true) end)) s0 sch' = Some s' ->
             c_count s' 0 = 0).
   { induction sch' as [|u r IH]; cbn; intros s0 s' Hsh Hc H; [inversion H; subst; exact Hc|].
-    destruct (cstep _ s0 u) as [s1|] eqn:Hs; [|discriminate].
-    apply (IH s1 s'); [| |exact H]; unfold cstep in Hs;
+    destruct (cstep_old _ s0 u) as [s1|] eqn:Hs; [|discriminate].
+    apply (IH s1 s'); [| |exact H]; unfold cstep_old, cstep in Hs;
       destruct (match u with 0 => Some (CShutdown false) | S _ => Some (CShutdown true) end) as [o|]; try discriminate;
       destruct (c_pcs s0 u); try discriminate;
       try (destruct (c_mu s0); try discriminate); inversion Hs; subst; clear Hs; cbn; auto;
-      unfold ccrit; rewrite Hsh; cbn; auto. }
+      unfold ccrit_old, ccrit; rewrite Hsh; destruct o as [[|]| |]; cbn; auto. }
   intros sch' s' H. eapply Hstable; [| |exact H]; reflexivity.
 Qed.
 
@@ -767,14 +660,15 @@ Qed.
 Lemma add_counts_length k xs : forall i cs, length (add_counts k xs i cs) = length cs.
 Proof. intros i cs. revert i. induction cs; intros i; cbn; [reflexivity | now rewrite IHcs]. Qed.
 
-Definition is_periodic (r : rk) : bool := match r with RPeriodic _ => true | RManual => false end.
+Notation is_periodic := periodic_std (only parsing).
 
 Lemma m_shutdown_ids live rs : forall i shut, ids_ge i (fst (m_shutdown live i rs shut)).
 Proof.
   induction rs as [|r rt IH]; intros i [|b bt]; cbn; try constructor.
   specialize (IH (S i) bt). destruct (m_shutdown live (S i) rt bt) as [xs w]. cbn in IH.
   assert (Hw : ids_ge i xs) by (eapply Forall_impl; [|exact IH]; cbn; intros; lia).
-  destruct r as [|x]; [exact Hw|]. destruct b; [exact Hw|]. cbn. constructor; [cbn; lia|]. constructor; [cbn; lia | exact Hw].
+  destruct r as [|x]; [exact Hw|]. destruct b; [exact Hw|]. destruct (is_nil x); [exact Hw|].
+  cbn. constructor; [cbn; lia|]. constructor; [cbn; lia | exact Hw].
 Qed.
 
 Lemma m_shutdown_counts live rs : forall i shut cs,
@@ -786,18 +680,18 @@ Proof.
   inversion Hf as [|? ? Hb Hbt]; subst. cbn [m_shutdown combine map fst snd].
   pose proof (m_shutdown_ids live rt (S i) bt) as Hids.
   specialize (IH (S i) bt ct). destruct (m_shutdown live (S i) rt bt) as [xs w]. cbn [fst] in *.
-  destruct r as [|x]; cbn [fst is_periodic add_counts].
-  - rewrite (count_calls_lt i _ xs (S i)) by (auto; lia). rewrite IH by (auto; lia). reflexivity.
-  - rewrite !count_calls_cons. cbn [fst snd]. rewrite Nat.eqb_refl. cbn.
-    rewrite (count_calls_lt i _ xs (S i)) by (auto; lia).
-    rewrite !add_counts_skip by (cbn; lia). rewrite IH by (auto; lia). f_equal; lia.
+  destruct r as [|x]; [|destruct x]; cbn [fst periodic_std is_nil add_counts];
+    rewrite ?count_calls_cons; cbn [fst snd]; rewrite ?Nat.eqb_refl; cbn [andb callk_eqb];
+    rewrite (count_calls_lt i _ xs (S i)) by (auto; lia);
+    rewrite ?add_counts_skip by (cbn; lia); rewrite IH by (auto; lia); f_equal; lia.
 Qed.
 
 Lemma m_flush_no_shutdown rs : forall i shut, no_k KXShutdown (fst (fst (m_flush i rs shut))).
 Proof.
   induction rs as [|r rt IH]; intros i [|b bt]; cbn; try constructor.
   specialize (IH (S i) bt). destruct (m_flush (S i) rt bt) as [[xs w] e]. cbn in *.
-  destruct r as [|x]; [exact IH|]. destruct b; [exact IH|]. cbn. repeat constructor; cbn; auto; discriminate.
+  destruct r as [|x]; [exact IH|]. destruct b; [exact IH|]. destruct (is_nil x); [exact IH|].
+  cbn. repeat constructor; cbn; auto; discriminate.
 Qed.
 
 Lemma m_flush_all_shut rs : forall i shut, length shut = length rs -> Forall (fun b => b = true) shut ->
@@ -808,19 +702,18 @@ Proof.
   rewrite IH by (auto; lia). destruct r; reflexivity.
 Qed.
 
-Definition pcount (r : rk) : nat := if is_periodic r then 1 else 0.
+Definition pcount (r : rk) : nat := if periodic_std r then 1 else 0.
 
 Lemma le1_zeros cs : Forall (fun c => c = 0) cs -> forallb (fun c => c <=? 1) cs = true.
 Proof. induction 1; cbn; [reflexivity|]. subst. exact IHForall. Qed.
 
 Lemma le1_pcount rs : forallb (fun c => c <=? 1) (map pcount rs) = true.
-Proof. induction rs as [|r l IH]; cbn; [reflexivity|]. rewrite IH. unfold pcount. now destruct (is_periodic r). Qed.
+Proof. induction rs as [|r l IH]; cbn; [reflexivity|]. rewrite IH. unfold pcount. now destruct (periodic_std r). Qed.
 
-Lemma all_once_pcount rs : existsb nil_periodic rs = false ->
+Lemma all_once_pcount rs :
   forallb (fun rc => if periodic_std (fst rc) then snd rc =? 1 else snd rc =? 0) (combine rs (map pcount rs)) = true.
 Proof.
-  induction rs as [|r l IH]; cbn; [reflexivity|]. intros H. apply orb_false_iff in H as [H1 H2].
-  rewrite IH by exact H2. destruct r as [|[| |]]; cbn in *; try reflexivity; discriminate.
+  induction rs as [|r l IH]; cbn; [reflexivity|]. rewrite IH. unfold pcount. now destruct (periodic_std r).
 Qed.
 
 Lemma bump_zeros rs : forall cs, Forall (fun c => c = 0) cs -> length cs = length rs ->
@@ -845,11 +738,11 @@ Definition MSim (readers : list rk) (s : mstate) (sp : mspec) : Prop :=
 Definition mop_wf (n : nat) (o : mop) : Prop := match o with MCollect i => i < n | _ => True end.
 
 Lemma mstep_sim readers s sp o :
-  existsb nil_periodic readers = false -> mop_wf (length readers) o -> MSim readers s sp ->
+  mop_wf (length readers) o -> MSim readers s sp ->
   exists sp', msstep readers sp o (a_obs (snd (mstep readers s o))) = Some sp' /\
               MSim readers (fst (mstep readers s o)) sp'.
 Proof.
-  intros Hnil Hwf (Hsh & Hst & Hl1 & Hl2 & H0 & H1).
+  intros Hwf (Hsh & Hst & Hl1 & Hl2 & H0 & H1).
   assert (Hle : forallb (fun c => c <=? 1) (ms_xshut sp) = true).
   { destruct (m_once s) eqn:E.
     - destruct (H1 eq_refl) as [_ ->]. apply le1_pcount.
@@ -888,7 +781,7 @@ Proof.
         { destruct (H0 eq_refl) as [Hall _]. clear - Ef Hall Hl1. revert Ef. generalize 0. revert xs w e Hl1 Hall.
           generalize (m_rs s). induction readers as [|r rt IH]; intros [|b bt] xs w e Hl Hall n Ef; cbn in *; try discriminate; try congruence.
           inversion Hall; subst. destruct (m_flush (S n) rt bt) as [[xs' w'] e'] eqn:E'.
-          assert (e' = false) by (eapply IH; eauto). subst e'. destruct r; inversion Ef; reflexivity. }
+          assert (e' = false) by (eapply IH; eauto). subst e'. destruct r as [|x]; [|destruct (is_nil x)]; inversion Ef; reflexivity. }
         subst e. cbn.
         eexists; split; [reflexivity|]. unfold MSim; cbn; repeat split; auto; try apply H0; auto; discriminate.
     + rewrite add_counts_no_k by constructor. rewrite Hle, Hsh, orb_true_r. cbn.
@@ -905,7 +798,7 @@ Proof.
       destruct (m_shutdown live 0 readers (m_rs s)) as [xs w]. cbn [fst] in Hc.
       cbn [snd fst mk a_obs o_wrote o_xcalls o_flag o_err hd].
       rewrite Hc, bump_zeros by auto. rewrite le1_pcount, Hsh. cbn.
-      rewrite all_once_pcount by exact Hnil.
+      rewrite all_once_pcount.
       assert (Hin : err_in (hd ENil (if live then [ENil] else [ENil; ECtx])) (if live then [ENil] else [ENil; ECtx]) = true)
         by (destruct live; reflexivity).
       rewrite Hin. cbn. eexists; split; [reflexivity|].
@@ -917,13 +810,13 @@ Qed.
 
 Definition strip {A} (l : list (A * mobs)) : list (A * obs) := map (fun x => (fst x, a_obs (snd x))) l.
 
-Lemma mrun_sim readers : existsb nil_periodic readers = false ->
+Lemma mrun_sim readers :
   forall ops s sp, Forall (mop_wf (length readers)) ops -> MSim readers s sp ->
   mspec_run readers sp (strip (mrun_from readers s ops)) = true.
 Proof.
-  intros Hnil. induction ops as [|o r IH]; intros s sp Hwf HS; [reflexivity|].
+  induction ops as [|o r IH]; intros s sp Hwf HS; [reflexivity|].
   inversion Hwf as [|? ? Ho Hr]; subst. cbn [mrun_from].
-  destruct (mstep_sim readers s sp o Hnil Ho HS) as (sp' & H1 & H2).
+  destruct (mstep_sim readers s sp o Ho HS) as (sp' & H1 & H2).
   destruct (mstep readers s o) as [s' ob]. cbn [strip map fst snd mspec_run] in *. rewrite H1. now apply IH.
 Qed.
 
@@ -932,8 +825,7 @@ Qed.
 Theorem mspec_ok_model readers ops l :
   Forall (mop_wf (length readers)) ops -> mrun readers ops = Ok l -> mspec_ok readers (strip l) = true.
 Proof.
-  unfold mrun. intros Hwf H. destruct (existsb nil_periodic readers) eqn:Hnil; [discriminate|].
-  inversion H; subst; clear H. apply mrun_sim; auto.
+  unfold mrun. intros Hwf H. inversion H; subst; clear H. apply mrun_sim; auto.
   unfold MSim; cbn. rewrite !map_length. repeat split; auto; try discriminate.
   - apply Forall_forall. intros b Hb. apply in_map_iff in Hb as [? [<- _]]. reflexivity.
   - apply Forall_forall. intros b Hb. apply in_map_iff in Hb as [? [<- _]]. reflexivity.
@@ -1081,15 +973,14 @@ Proof.
 Qed.
 
 (** * Never crashes *)
-Theorem metric_never_crashes readers ops :
-  existsb nil_periodic readers = false -> exists l, mrun readers ops = Ok l.
-Proof. intros H. unfold mrun. rewrite H. eauto. Qed.
+Theorem metric_never_crashes readers ops : exists l, mrun readers ops = Ok l.
+Proof. unfold mrun. eauto. Qed.
 
 Theorem log_never_crashes procs ops : exists l, lrun procs ops = Ok l.
 Proof. unfold lrun. eauto. Qed.
 
-(** A PeriodicReader around a nil exporter is the one stock configuration that does (F-C15-4). *)
-Lemma metric_nil_periodic_crashes : forall ops, mrun [RPeriodic XNil] ops = Crash.
+(** Before b09d39a a PeriodicReader around a nil exporter was the one stock configuration that did. *)
+Lemma metric_nil_periodic_old_crashes : forall ops, mrun_old [RPeriodic XNil] ops = Crash.
 Proof. reflexivity. Qed.
 
 (** * Concurrent Shutdown callers on the log / metric providers (swap and Once protocols) *)
@@ -1106,6 +997,8 @@ Section OneShot.
     end.
 
   Definition SInv (s : sstate) : Prop :=
+    (s_flag s = None -> s_finished s = false) /\
+    (blocking = true -> forall t e, s_pcs s t = SDone e -> s_finished s = true) /\
     (forall j, s_counts s j = if j <? progress s then 1 else 0) /\
     progress s <= n /\
     (forall t i, s_pcs s t = SRun i -> s_flag s = Some t) /\
@@ -1117,8 +1010,8 @@ Section OneShot.
   Proof.
     apply invariant.
     - unfold SInv, progress; cbn. repeat split; try discriminate; auto; lia.
-    - intros s t s' _ (Hc & Hp & Hrun & Hnone & Hw) Hs. unfold sstep in Hs.
-      destruct (callers t); [|discriminate]. cbn in Hs.
+    - intros s t s' _ (Hnf & Hblk & Hc & Hp & Hrun & Hnone & Hw) Hs. unfold sstep in Hs.
+      destruct (callers t); [|discriminate]. cbn [negb] in Hs.
       destruct (s_pcs s t) as [|i|e] eqn:Hpc; [| |discriminate].
       + (* a caller arrives *)
         destruct (s_flag s) as [w|] eqn:Hf.
@@ -1126,16 +1019,16 @@ Section OneShot.
           assert (Hsame : forall p f, progress {| s_flag := Some w; s_finished := f; s_counts := s_counts s;
                                                   s_pcs := upd (s_pcs s) t p |} = progress s).
           { intros p f. unfold progress; cbn. rewrite Hf. now rewrite upd_other by exact Hne. }
-          destruct blocking.
+          destruct blocking eqn:Hbk.
           -- destruct (s_finished s) eqn:Hfin; [|discriminate]. inversion Hs; subst; clear Hs.
-             unfold SInv. rewrite Hsame. cbn [s_counts s_flag s_pcs s_finished].
+             unfold SInv. rewrite Hsame. cbn [s_counts s_flag s_pcs s_finished]. split; [discriminate|]. split; [reflexivity|].
              split; [exact Hc|]. split; [exact Hp|]. split.
              { intros u i Hu. destruct (Nat.eq_dec u t) as [->|Hn]; [rewrite upd_same in Hu; discriminate|].
                rewrite upd_other in Hu by exact Hn. rewrite ?Hf. eapply Hrun; eauto. }
              split; [discriminate|].
              intros w' Hw'. inversion Hw'; subst w'. rewrite upd_other by exact Hne.
              destruct (Hw w eq_refl) as [X Y]. split; [exact X | exact Y].
-          -- inversion Hs; subst; clear Hs. unfold SInv. rewrite Hsame. cbn [s_counts s_flag s_pcs s_finished].
+          -- inversion Hs; subst; clear Hs. unfold SInv. rewrite Hsame. cbn [s_counts s_flag s_pcs s_finished]. split; [discriminate|]. split; [intros Hb; congruence|].
              split; [exact Hc|]. split; [exact Hp|]. split.
              { intros u i Hu. destruct (Nat.eq_dec u t) as [->|Hn]; [rewrite upd_same in Hu; discriminate|].
                rewrite upd_other in Hu by exact Hn. rewrite ?Hf. eapply Hrun; eauto. }
@@ -1143,7 +1036,7 @@ Section OneShot.
              intros w' Hw'. inversion Hw'; subst w'. rewrite upd_other by exact Hne. now apply Hw.
         * inversion Hs; subst; clear Hs.
           assert (Hp0 : progress s = 0) by (unfold progress; now rewrite Hf).
-          unfold SInv, progress. cbn [s_counts s_flag s_pcs s_finished]. rewrite upd_same.
+          unfold SInv, progress. cbn [s_counts s_flag s_pcs s_finished]. rewrite upd_same. split; [discriminate|]. split; [intros _ u e Hu; destruct (Nat.eq_dec u t) as [->|Hn]; [rewrite upd_same in Hu; discriminate | rewrite upd_other in Hu by exact Hn; rewrite (Hnone eq_refl u) in Hu; discriminate]|].
           split; [intros j; rewrite Hc, Hp0; reflexivity|]. split; [lia|]. split.
           { intros u i Hu. destruct (Nat.eq_dec u t) as [->|Hn]; [reflexivity|].
             rewrite upd_other in Hu by exact Hn. rewrite (Hnone eq_refl u) in Hu. discriminate. }
@@ -1154,7 +1047,7 @@ Section OneShot.
         pose proof (Hrun t i Hpc) as Hf. destruct (Hw t Hf) as [_ Hfin].
         assert (Hpi : progress s = i) by (unfold progress; now rewrite Hf, Hpc).
         destruct (i <? n) eqn:Hlt; inversion Hs; subst s'; clear Hs.
-        * apply Nat.ltb_lt in Hlt. unfold SInv, progress. cbn [s_counts s_flag s_pcs s_finished]. rewrite Hf, upd_same.
+        * apply Nat.ltb_lt in Hlt. unfold SInv, progress. cbn [s_counts s_flag s_pcs s_finished]. rewrite Hf, upd_same. split; [discriminate|]. split; [intros Hb u e Hu; destruct (Nat.eq_dec u t) as [->|Hn]; [rewrite upd_same in Hu; discriminate | rewrite upd_other in Hu by exact Hn; exfalso; apply (Hblk Hb) in Hu; apply Hfin in Hu as [e' He']; congruence]|].
           split.
           { intros j. destruct (Nat.eq_dec j i) as [->|Hn].
             - rewrite upd_same, Hc, Hpi. rewrite Nat.ltb_irrefl. replace (i <? S i) with true by (symmetry; apply Nat.ltb_lt; lia). reflexivity.
@@ -1163,15 +1056,15 @@ Section OneShot.
                 apply Nat.ltb_lt in A || apply Nat.ltb_ge in A; apply Nat.ltb_lt in B || apply Nat.ltb_ge in B; lia. }
           split; [lia|]. split.
           { intros u k Hu. destruct (Nat.eq_dec u t) as [->|Hn]; [reflexivity|].
-            rewrite upd_other in Hu by exact Hn. eapply Hrun; eauto. }
+            rewrite upd_other in Hu by exact Hn. rewrite <- Hf. eapply Hrun; eauto. }
           split; [congruence|].
           intros w' Hw'. inversion Hw'; subst w'. rewrite upd_same. split; [discriminate|].
           split; [discriminate | intros [e He]; discriminate].
-        * apply Nat.ltb_ge in Hlt. unfold SInv, progress. cbn [s_counts s_flag s_pcs s_finished]. rewrite Hf, upd_same.
-          assert (i = n) by lia. subst i.
+        * apply Nat.ltb_ge in Hlt. unfold SInv, progress. cbn [s_counts s_flag s_pcs s_finished]. rewrite Hf, upd_same. split; [discriminate|]. split; [reflexivity|].
+          assert (Hin' : i = n) by lia. rewrite Hin' in *.
           split; [intros j; rewrite Hc, Hpi; reflexivity|]. split; [lia|]. split.
           { intros u k Hu. destruct (Nat.eq_dec u t) as [->|Hn]; [rewrite upd_same in Hu; discriminate|].
-            rewrite upd_other in Hu by exact Hn. eapply Hrun; eauto. }
+            rewrite upd_other in Hu by exact Hn. rewrite <- Hf. eapply Hrun; eauto. }
           split; [congruence|].
           intros w' Hw'. inversion Hw'; subst w'. rewrite upd_same. split; [discriminate|].
           split; [eauto | reflexivity].
@@ -1186,7 +1079,7 @@ Section OneShot.
     (s_finished s = true -> forall j, j < n -> s_counts s j = 1) /\
     (blocking = true -> forall t e, s_pcs s t = SDone e -> s_finished s = true).
   Proof.
-    intros Hr. pose proof (sinv s Hr) as (Hc & Hp & Hrun & Hnone & Hw).
+    intros Hr. pose proof (sinv s Hr) as (Hnf & Hblk & Hc & Hp & Hrun & Hnone & Hw).
     split; [intros j; rewrite Hc; destruct (j <? progress s); lia|].
     split; [intros j Hj; rewrite Hc; replace (j <? progress s) with false; [reflexivity | symmetry; apply Nat.ltb_ge; lia]|].
     split.
@@ -1194,54 +1087,39 @@ Section OneShot.
       destruct (s_flag s) as [w|] eqn:Hf.
       + destruct (Hw w eq_refl) as [_ X]. apply X in Hfin as [e He].
         unfold progress. rewrite Hf, He. replace (j <? n) with true; [reflexivity | symmetry; now apply Nat.ltb_lt].
-      + (* finished without a winner is impossible *)
-        exfalso. clear - Hr Hfin Hf. induction Hr as [|s0 t s1 Hr0 IH Hs]; [discriminate|].
-        unfold sstep in Hs. destruct (callers t); [|discriminate]. cbn in Hs.
-        destruct (s_pcs s0 t); [| |discriminate].
-        * destruct (s_flag s0) eqn:F0; [destruct blocking; [destruct (s_finished s0); [|discriminate]|]|];
-            inversion Hs; subst; cbn in *; discriminate.
-        * pose proof (sinv s0 Hr0) as (_ & _ & Hrun0 & _).
-          destruct (i <? n); inversion Hs; subst; cbn in *; try discriminate.
-          destruct (s_pcs s0 t) eqn:X; congruence.
-    - intros Hb t e Ht. subst blocking.
-      induction Hr as [|s0 u s1 Hr0 IH Hs]; [discriminate|].
-      pose proof (sinv s0 Hr0) as (_ & _ & _ & Hnone0 & _).
-      unfold sstep in Hs. destruct (callers u); [|discriminate]. cbn in Hs.
-      destruct (s_pcs s0 u) eqn:Hpu; [| |discriminate].
-      + destruct (s_flag s0) eqn:F0.
-        * destruct (s_finished s0) eqn:Hfin; [|discriminate]. inversion Hs; subst; reflexivity.
-        * inversion Hs; subst; cbn in *. destruct (Nat.eq_dec t u) as [->|Hn]; [rewrite upd_same in Ht; discriminate|].
-          rewrite upd_other in Ht by exact Hn. rewrite (Hnone0 eq_refl t) in Ht. discriminate.
-      + destruct (i <? n); inversion Hs; subst; cbn in *; [|reflexivity].
-        destruct (Nat.eq_dec t u) as [->|Hn]; [rewrite upd_same in Ht; discriminate|].
-        rewrite upd_other in Ht by exact Hn. specialize (IH Hr0 Ht).
-        pose proof (sinv s0 Hr0) as (_ & _ & Hrun0 & _ & Hw0).
-        pose proof (Hrun0 u i Hpu) as Hfu. destruct (Hw0 u Hfu) as [_ X]. apply X in IH as [e' He']. congruence.
+      + rewrite (Hnf eq_refl) in Hfin. discriminate.
+    - exact Hblk.
+  Qed.
+
+  Lemma sidle : forall s, SR s -> forall t, callers t = false -> s_pcs s t = SIdle.
+  Proof.
+    apply (invariant (sstep blocking n callers) sinit (fun s => forall t, callers t = false -> s_pcs s t = SIdle)).
+    - reflexivity.
+    - intros s t s' _ IH Hs u Hu. unfold sstep in Hs. destruct (callers t) eqn:Hct; [|discriminate]. cbn [negb] in Hs.
+      assert (Hne : u <> t) by congruence.
+      destruct (s_pcs s t); [| |discriminate].
+      + destruct (s_flag s); [destruct blocking; [destruct (s_finished s); [|discriminate]|]|];
+          inversion Hs; subst; cbn; rewrite upd_other by exact Hne; now apply IH.
+      + destruct (i <? n); inversion Hs; subst; cbn; rewrite upd_other by exact Hne; now apply IH.
   Qed.
 
   Theorem oneshot_no_deadlock s t : SR s -> callers t = true -> (forall e, s_pcs s t <> SDone e) ->
     exists u, sstep blocking n callers s u <> None.
   Proof.
-    intros Hr Hc Hnd. pose proof (sinv s Hr) as (_ & _ & Hrun & Hnone & Hw).
+    intros Hr Hc Hnd. pose proof (sinv s Hr) as (_ & _ & _ & _ & Hrun & Hnone & Hw).
     destruct (s_flag s) as [w|] eqn:Hf.
     - destruct (Hw w eq_refl) as [Hni Hfin].
       destruct (s_pcs s w) as [|i|e] eqn:Hpw; [contradiction| |].
       + exists w. unfold sstep.
         assert (Hcw : callers w = true).
-        { clear - Hr Hpw. revert i Hpw. induction Hr as [|s0 u s1 Hr0 IH Hs]; intros i Hpw; [discriminate|].
-          unfold sstep in Hs. destruct (callers u) eqn:Hu; [|discriminate]. cbn in Hs.
-          destruct (Nat.eq_dec w u) as [->|Hn]; [exact Hu|].
-          destruct (s_pcs s0 u); [| |discriminate].
-          - destruct (s_flag s0); [destruct blocking; [destruct (s_finished s0); [|discriminate]|]|];
-              inversion Hs; subst; cbn in Hpw; rewrite upd_other in Hpw by exact Hn; eauto.
-          - destruct (i0 <? n); inversion Hs; subst; cbn in Hpw; rewrite upd_other in Hpw by exact Hn; eauto. }
-        rewrite Hcw, Hpw. cbn. destruct (i <? n); discriminate.
-      + exists t. unfold sstep. rewrite Hc. cbn.
+        { destruct (callers w) eqn:X; [reflexivity|]. rewrite (sidle s Hr w X) in Hpw. discriminate. }
+        rewrite Hcw, Hpw. cbn [negb]. destruct (i <? n); discriminate.
+      + exists t. unfold sstep. rewrite Hc. cbn [negb].
         destruct (s_pcs s t) as [|i|e'] eqn:Hpt.
         * rewrite Hf. assert (Hfi : s_finished s = true) by (apply Hfin; eauto). rewrite Hfi.
           destruct blocking; discriminate.
         * pose proof (Hrun t i Hpt). assert (w = t) by congruence. subst. congruence.
         * exfalso. eapply Hnd; eauto.
-    - exists t. unfold sstep. rewrite Hc. cbn. rewrite (Hnone eq_refl t), Hf. discriminate.
+    - exists t. unfold sstep. rewrite Hc. cbn [negb]. rewrite (Hnone eq_refl t), Hf. discriminate.
   Qed.
 End OneShot.
